@@ -32,6 +32,8 @@ type GovSpec struct {
 	// FailAfter appends a message that fails when the proposal is executed (a transfer the gov account
 	// cannot afford): the proposal passes the vote, its execution is rolled back as a whole
 	FailAfter bool
+	// Veto: the only voter votes no-with-veto: the proposal is rejected and its deposit is burned
+	Veto bool
 }
 
 // Action is one letter of a scenario alphabet: one block (time step + transactions), or a
@@ -482,7 +484,11 @@ func (e *Exec) runGov(a *Action, obs *StepObs, discs *[]Disc) {
 	must(err)
 	r1 := w.DeliverTx(w.MustSign(mc.TxSpec{Msgs: []sdk.Msg{sub}, Signers: []string{"V"}}))
 	e.TxEvents = append(e.TxEvents, r1.Events)
-	vote := govv1.NewMsgVote(w.Addr("V"), pid, govv1.OptionYes, "")
+	opt := govv1.OptionYes
+	if g.Veto {
+		opt = govv1.OptionNoWithVeto
+	}
+	vote := govv1.NewMsgVote(w.Addr("V"), pid, opt, "")
 	r2 := w.DeliverTx(w.MustSign(mc.TxSpec{Msgs: []sdk.Msg{vote}, Signers: []string{"V"}}))
 	obs.Txs = append(obs.Txs, TxObs{Code: r1.Code, Log: firstLine(r1.Log), Pred: fmt.Sprintf("gov-submit valid=%v", valid)}, TxObs{Code: r2.Code, Log: firstLine(r2.Log), Pred: "gov-vote"})
 	if r1.OK() != valid {
@@ -511,7 +517,14 @@ func (e *Exec) runGov(a *Action, obs *StepObs, discs *[]Disc) {
 	}
 	// the proposal is tallied and executed in this block's EndBlock: bring the model up to date
 	// first, so that per-block observers see both sides in the same state
-	if r1.OK() {
+	if r1.OK() && g.Veto {
+		// vetoed: the deposit is burned (a protocol burn: the supply shrinks by it), nothing is executed
+		m.Bal[model.ModGov][mc.Nund] = new(big.Int).Sub(m.BalOf(model.ModGov, mc.Nund), big.NewInt(10))
+		if m.Bal[model.ModGov][mc.Nund].Sign() == 0 {
+			delete(m.Bal[model.ModGov], mc.Nund)
+		}
+		m.Supply[mc.Nund] = new(big.Int).Sub(m.SupplyOf(mc.Nund), big.NewInt(10))
+	} else if r1.OK() {
 		// deposit refunded, proposal executed
 		m.Bal["V"][mc.Nund] = new(big.Int).Add(m.BalOf("V", mc.Nund), big.NewInt(10))
 		m.Bal[model.ModGov][mc.Nund] = new(big.Int).Sub(m.BalOf(model.ModGov, mc.Nund), big.NewInt(10))
